@@ -55,6 +55,9 @@ func Journalling() bool { return journalFile != nil }
 
 // Journal records the case that is about to be evaluated (journal mode only).
 func (r *Run) Journal(c interface{}) {
+	// the first case evaluated is kept as a sample of last resort, so that the evidence of a run always shows at least
+	// one concrete case even when a check's own sampling rule never fired
+	r.firstOnce.Do(func() { r.firstCase = c })
 	if journalFile == nil {
 		return
 	}
